@@ -26,28 +26,55 @@ def vkind(ct):
     return "ptr" if ct.endswith("*") else "struct" if ct.startswith("struct") else "int"
 
 
+LIBC_CDEF = """
+    extern int optind; extern int opterr;
+    int abs(int); size_t strlen(const char *); int atoi(const char *); long labs(long); int toupper(int);
+"""
+
+
+def vname(desc, k):
+    """C name of variable k: unique per description (libraries may be loaded RTLD_GLOBAL side by side)"""
+    if desc.get("libc"):
+        names = ["optind", "opterr"]
+        return names[k] if k < len(names) else "c37_nosuch_var_%d" % k
+    return "d%d_var_%d" % (desc["tag"], k)
+
+
+def fname(desc, f):
+    if desc.get("libc"):
+        names = ["abs", "strlen", "atoi", "labs", "toupper"]
+        return names[f] if f < len(names) else "c37_nosuch_fn_%d" % f
+    return "d%d_fn_%d" % (desc["tag"], f)
+
+
+def cname(desc, c):
+    return "K_%d" % c
+
+
 def c_source(desc):
     out = [TYPES]
     for k, (ct, lo, hi) in enumerate(desc["vars"]):
-        out.append("%s var_%d = {0};" % (ct, k) if vkind(ct) == "struct" else "%s var_%d = 0;" % (ct, k))
+        out.append("%s %s = {0};" % (ct, vname(desc, k)) if vkind(ct) == "struct" else "%s %s = 0;" % (ct, vname(desc, k)))
     for f, (kind, v) in enumerate(desc["fns"]):
         ct = desc["vars"][v][0]
         if kind == "get":
-            out.append("%s fn_%d(void) { return var_%d; }" % (ct, f, v))
+            out.append("%s %s(void) { return %s; }" % (ct, fname(desc, f), vname(desc, v)))
         else:
-            out.append("%s fn_%d(%s x) { %s o = var_%d; var_%d = x; return o; }" % (ct, f, ct, ct, v, v))
+            out.append("%s %s(%s x) { %s o = %s; %s = x; return o; }" % (ct, fname(desc, f), ct, ct, vname(desc, v), vname(desc, v)))
     return "\n".join(out) + "\n"
 
 
 def c_cdef(desc):
+    if desc.get("libc"):
+        return LIBC_CDEF + "".join("#define K_%d %d\n" % (c, k) for c, k in enumerate(desc["consts"]))
     out = [TYPES]
     for c, k in enumerate(desc["consts"]):
         out.append("#define K_%d %d" % (c, k))
     for k, (ct, lo, hi) in enumerate(desc["vars"]):
-        out.append("extern %s var_%d;" % (ct, k))
+        out.append("extern %s %s;" % (ct, vname(desc, k)))
     for f, (kind, v) in enumerate(desc["fns"]):
         ct = desc["vars"][v][0]
-        out.append("%s fn_%d(%s);" % (ct, f, "void" if kind == "get" else ct))
+        out.append("%s %s(%s);" % (ct, fname(desc, f), "void" if kind == "get" else ct))
     return "\n".join(out) + "\n"
 
 
@@ -56,11 +83,15 @@ class Env:
 
     def __init__(self, idx, desc):
         self.desc = desc
-        base = os.path.join(WORK, "c37lib_%d" % idx)
-        with open(base + ".c", "w") as f:
-            f.write(c_source(desc))
-        self.so = base + ".so"
-        subprocess.check_call(["gcc", "-w", "-shared", "-fPIC", "-O0", "-o", self.so, base + ".c"])
+        desc["tag"] = idx
+        if desc.get("libc"):
+            self.so = None                        # ffi.dlopen(None): the process itself, libc symbols
+        else:
+            base = os.path.join(WORK, "c37lib_%d" % idx)
+            with open(base + ".c", "w") as f:
+                f.write(c_source(desc))
+            self.so = base + ".so"
+            subprocess.check_call(["gcc", "-w", "-shared", "-fPIC", "-O0", "-o", self.so, base + ".c"])
         cdef = c_cdef(desc)
         self.ffi_inline = cffi.FFI()
         self.ffi_inline.cdef(cdef)
@@ -77,13 +108,16 @@ class Env:
         gffi = cffi.FFI()
         gffi.cdef(cdef)
         self.gffi = gffi
-        self.guard = gffi.dlopen(self.so)
+        # the guard handle: in some runs opened RTLD_GLOBAL, so that the library's symbols are resolvable in the
+        # process-global scope (what dlsym(NULL, name) searches) after a lib object was closed
+        flags = (gffi.RTLD_GLOBAL | gffi.RTLD_NOW) if desc.get("global_guard") else 0
+        self.guard = gffi.dlopen(self.so, flags)
         self.fn_addr = {}
         for f in range(len(desc["fns"])):
-            self.fn_addr[int(gffi.cast("uintptr_t", getattr(self.guard, "fn_%d" % f)))] = f
+            self.fn_addr[int(gffi.cast("uintptr_t", getattr(self.guard, fname(desc, f))))] = f
         self.var_addr = {}
         for v in range(len(desc["vars"])):
-            self.var_addr[int(gffi.cast("uintptr_t", gffi.addressof(self.guard, "var_%d" % v)))] = v
+            self.var_addr[int(gffi.cast("uintptr_t", gffi.addressof(self.guard, vname(desc, v))))] = v
 
 
 def canon(env, ffi, x):
@@ -141,7 +175,7 @@ def run_case(env, case):
     def ctof(i):
         return vct[i] if i < len(vct) else "int"
     for v, z in enumerate(case["m0"]):
-        setattr(env.guard, "var_%d" % v, to_c(env.gffi, vct[v], z))
+        setattr(env.guard, vname(desc, v), to_c(env.gffi, vct[v], z))
     libs = []
     for m in case["modes"]:
         ffi = env.ffi_inline if m == "inline" else env.ffi_ool
@@ -154,29 +188,29 @@ def run_case(env, case):
         kind, l = op[0], op[1]
         ffi, lib = libs[l]
         if kind == "read":
-            r = attempt(env, ffi, lambda: from_c(ffi, ctof(op[2]), getattr(lib, "var_%d" % op[2])))
+            r = attempt(env, ffi, lambda: from_c(ffi, ctof(op[2]), getattr(lib, vname(desc, op[2]))))
         elif kind == "write":
-            r = attempt(env, ffi, lambda: setattr(lib, "var_%d" % op[2], to_c(ffi, ctof(op[2]), op[3])))
+            r = attempt(env, ffi, lambda: setattr(lib, vname(desc, op[2]), to_c(ffi, ctof(op[2]), op[3])))
         elif kind == "fetch":
-            r = attempt(env, ffi, lambda: getattr(lib, "fn_%d" % op[2]))
+            r = attempt(env, ffi, lambda: getattr(lib, fname(desc, op[2])))
         elif kind == "call":
             f = op[2]
             isget = f < len(desc["fns"]) and desc["fns"][f][0] == "get"
             fct = ctof(desc["fns"][f][1]) if f < len(desc["fns"]) else "int"
             if isget:
-                r = attempt(env, ffi, lambda: from_c(ffi, fct, getattr(lib, "fn_%d" % f)()))
+                r = attempt(env, ffi, lambda: from_c(ffi, fct, getattr(lib, fname(desc, f))()))
             else:
-                r = attempt(env, ffi, lambda: from_c(ffi, fct, getattr(lib, "fn_%d" % f)(to_c(ffi, fct, op[3]))))
+                r = attempt(env, ffi, lambda: from_c(ffi, fct, getattr(lib, fname(desc, f))(to_c(ffi, fct, op[3]))))
         elif kind == "const":
             r = attempt(env, ffi, lambda: getattr(lib, "K_%d" % op[2]))
         elif kind == "addr":
-            r = attempt(env, ffi, lambda: ffi.addressof(lib, "var_%d" % op[2]))
+            r = attempt(env, ffi, lambda: ffi.addressof(lib, vname(desc, op[2])))
         elif kind == "close":
             r = attempt(env, ffi, lambda: ffi.dlclose(lib))
         else:
             raise ValueError(kind)
         outs.append(r)
-    final = [int(from_c(env.gffi, vct[v], getattr(env.guard, "var_%d" % v))) for v in range(len(desc["vars"]))]
+    final = [int(from_c(env.gffi, vct[v], getattr(env.guard, vname(desc, v)))) for v in range(len(desc["vars"]))]
     # leave nothing open behind (so that a later history starts from fresh lib objects)
     for ffi, lib in libs:
         try:
